@@ -522,6 +522,37 @@ func checkB5(c *Ctx, pr *prioRoles, strict bool) {
 	if strict && !rejectsOnlyWhenAbove {
 		problems = append(problems, "the top-up is rejected already when actual == strategic: a priority sitting exactly on its share is sent down the base path, which can push another priority above its share")
 	}
+	// (strict) the top-up is refused only because some priority sits above its share: any other
+	// refusal - "fewer vacant handlers than priorities" - sends a round that the top-up would have
+	// served exactly down the base path, which divides without regard to who is missing how many
+	if strict {
+		for _, b := range fn.Blocks {
+			ret, isRet := b.Instrs[len(b.Instrs)-1].(*ssa.Return)
+			if !isRet || b.Comment == "recover" || len(ret.Results) == 0 {
+				continue
+			}
+			cv, isC := ret.Results[0].(*ssa.Const)
+			if !isC || constString(cv) != "false" {
+				continue
+			}
+			above := false
+			for _, e := range DomEdges(b) {
+				iff := e.From.Instrs[len(e.From.Instrs)-1].(*ssa.If)
+				cm := p.NormCmp(iff.Cond, e.Succ == 0)
+				if cm == nil || cm.LC != 0 || cm.RC != 0 {
+					continue
+				}
+				l, r := deepStrip(cm.L), deepStrip(cm.R)
+				// strategic[k] < actual[k]  (or <=, which the strictness check above reports)
+				if (cm.Op == token.LSS || cm.Op == token.LEQ) && isIdx(l, "strategic") && isIdx(r, "actual") {
+					above = true
+				}
+			}
+			if !above {
+				problems = append(problems, "the top-up is refused at "+p.InstrPos(ret)+" for a reason other than a priority above its share: such rounds go down the base path, which can lift a priority above its share")
+			}
+		}
+	}
 	// results
 	staleSum := false
 	for _, s := range p.resultSyms(fn, 0) {
